@@ -9,7 +9,7 @@ import summaries as BI
 VERIF = os.path.dirname(os.path.dirname(os.path.abspath(__file__)))
 TARGET = os.path.join(VERIF, "target")
 MIRDIR = os.path.join(TARGET, "mir")
-REPO = "/repo"
+REPO = os.environ.get("VERIF_REPO", "/repo")
 
 
 def dump_mir(force=False):
